@@ -365,8 +365,8 @@ WARM = {'live': None}
 
 
 def detect_warm_start(ctx=None):
-    """asks the same two-phase query twice on one mixed-phase particle, once with an empty cache and once with a
-    deliberately different cached K, and compares the answers BIT-WISE; also the flash itself with K=None / K given"""
+    """runs the flash of three two-phase mixtures twice, once without and once with a deliberately different initial
+    guess K, and compares the phase splits BIT-WISE"""
     from tamoc import dbm
     live = False
     probes = [(['methane', 'n-decane'], [0.6e-6, 0.4e-6], 290., 5e6),
@@ -379,11 +379,9 @@ def detect_warm_start(ctx=None):
             mi0, _x, K = fp.equilibrium(m, T, P)
             Kp = np.array(K, dtype=float) * np.array([3., 0.3, 2., 0.5][:len(comp)])
             mi1, _x, _K = fp.equilibrium(m, T, P, Kp)
-            fp.K = None
-            a = flat(fp.return_all(m, T, P, 35., 285., -1))
-            fp.K = Kp.copy()
-            b = flat(fp.return_all(m, T, P, 35., 285., -1))
-        if not (np.array_equal(mi0, mi1, equal_nan=True) and close(a, b, 0.)):
+        # liveness is a property of the FLASH alone (the only consumer of the cached K): a particle method whose answer
+        # depends on the cache although the flash does not is a leak, to be judged at 1e-12, not a live warm start
+        if not np.array_equal(mi0, mi1, equal_nan=True):
             live = True
     WARM['live'] = live
     if ctx is not None:
